@@ -51,6 +51,8 @@
                                                    "appointment" (stored, tracker not yet inserted): reply of neither order
      C10_reader_purge_reply_not_linearizable       get / get_subscription_info || the purging block: "not found" / "no locators"
                                                    (the reader's sections straddle the purge): reply of neither order
+     C10_reader_add_reply_not_linearizable         get_subscription_info || add of the same user: balance after the charge,
+                                                   locators before the store: reply of neither order
    Hence `get || anything` is settled: state and the other thread's reply always (C10_writer_among_readers_runs_alone);
    the reader's own reply is that of a sequential order against a disconnection, a registration (proved) and against
    readers (C10_reads_linearizable), NOT against add_appointment on the trigger path nor against the purge (refuted);
@@ -532,6 +534,18 @@ Theorem C10_reader_purge_reply_not_linearizable :
   snd (run_sched w_purge ps (in_order [1; 0]%nat)) = [Some (TOut (OSubRes SubAuth)); Some (TOut OBlockRes)].
 Proof. exact readers_straddle_the_purge. Qed.
 
+(* get_subscription_info || add_appointment of the same user: the reader is told the balance AFTER the charge and the
+   locators BEFORE the store (the charge and the store are two critical sections: the source's own TODO): neither order *)
+Theorem C10_reader_add_reply_not_linearizable :
+  let ps := [w_add; getsub_p (Some 1)] in
+  snd (run_sched w_reg ps w_getsub_midway) =
+    [Some (TOut (OAddRes (AddOk 120 1 9 520))); Some (TOut (OSubRes (SubOk 9 520 [])))] /\
+  snd (run_sched w_reg ps (in_order [0; 1]%nat)) =
+    [Some (TOut (OAddRes (AddOk 120 1 9 520))); Some (TOut (OSubRes (SubOk 9 520 [7])))] /\
+  snd (run_sched w_reg ps (in_order [1; 0]%nat)) =
+    [Some (TOut (OAddRes (AddOk 120 1 9 520))); Some (TOut (OSubRes (SubOk 10 520 [])))].
+Proof. exact reader_sees_the_charge_before_the_appointment. Qed.
+
 (* add_appointment || the block with its dispute is NOT linearizable in the height stamps (start_block 120
    next to a tracker stamped 121; the orders give 120/120 and 121/121) — while C10_no_missed_breach holds *)
 Theorem C10_add_connect_not_linearizable :
@@ -568,6 +582,7 @@ Print Assumptions C10_preemption_before_an_action_is_not_coarse.
 Print Assumptions C10_writer_among_readers_runs_alone.
 Print Assumptions C10_reader_reply_not_linearizable.
 Print Assumptions C10_reader_purge_reply_not_linearizable.
+Print Assumptions C10_reader_add_reply_not_linearizable.
 Print Assumptions C10_no_missed_breach_refined.
 Print Assumptions C10_get_disconnect_linearizable.
 Print Assumptions C10_getsub_disconnect_linearizable.
